@@ -110,6 +110,15 @@ func (dec *yamlDecoder) Init(reader io.Reader) error {
 	return nil
 }
 
+func joinCommentBlocks(first string, second string) string {
+	if first == "" {
+		return second
+	} else if second == "" {
+		return first
+	}
+	return first + "\n" + second
+}
+
 func (dec *yamlDecoder) Decode() (*CandidateNode, error) {
 	var yamlNode yaml.Node
 	err := dec.decoder.Decode(&yamlNode)
@@ -138,8 +147,10 @@ func (dec *yamlDecoder) Decode() (*CandidateNode, error) {
 		return nil, err
 	}
 
-	candidateNode.HeadComment = yamlNode.HeadComment + candidateNode.HeadComment
-	candidateNode.FootComment = yamlNode.FootComment + candidateNode.FootComment
+	// the document node's comments move onto the root node: head comments come before the root's own, foot
+	// comments after them, each on lines of their own
+	candidateNode.HeadComment = joinCommentBlocks(yamlNode.HeadComment, candidateNode.HeadComment)
+	candidateNode.FootComment = joinCommentBlocks(candidateNode.FootComment, yamlNode.FootComment)
 
 	if dec.leadingContent != "" {
 		candidateNode.LeadingContent = dec.leadingContent
